@@ -2,7 +2,7 @@
 From Coq Require Import List ZArith Bool String Arith Lia.
 From Find Require Import Model.
 Import ListNotations.
-Open Scope Z_scope.
+Local Open Scope Z_scope.
 
 (* ------------------------------------------------------------------ *)
 (** * paths *)
@@ -586,3 +586,8 @@ Proof. intros. unfold api_next. erewrite nav_next_at_end; eauto. Qed.
 Theorem nav_api_parent_top : forall p st,
   api_parent (NProc p) (CNode [st]) = Ok None.
 Proof. intros. reflexivity. Qed.
+
+Lemma nav_next_root_or_single : forall root d,
+  node_next root [] d = Err InvalidCursorError /\
+  (forall p a, last_step p = Some (a, None) -> node_next root p d = Err InvalidCursorError).
+Proof. intros. split; [apply nav_next_root | intros; eapply nav_next_not_in_block; eauto]. Qed.
